@@ -1553,7 +1553,9 @@ class SecurityBase(Node):
             i = 0
             last_q = q
             last_amount_short = full_outlay - amount
-            while not np.isclose(full_outlay, amount, rtol=TOL) and q != 0:
+            # relative tolerance of a few ulps: with rtol=TOL (1e-16) only the absolute 1e-8 of
+            # isclose applied, which is below double resolution for amounts above ~5e7
+            while not np.isclose(full_outlay, amount, rtol=1e-15) and q != 0:
                 dq_wout_considering_tx_costs = (full_outlay - amount) / (self._price * self.multiplier)
                 q = q - dq_wout_considering_tx_costs
 
